@@ -102,10 +102,18 @@ def set_feature_masks(pit, spec, group_masks: Dict[str, List[bool]], vals: Optio
 
 
 def build_pit_import(spec, wseed: int, plain: set, fold_bn: bool = False, xseed: int = 0, **kw):
-    """Import mode (autoconvert_layers=False): every conv/linear layer whose node id is not in
-    `plain` is placed by the 'user' as a PIT layer, with one masker per reference width group
-    (frozen where the reference says the width is pinned), the way a careful user would."""
+    """Import mode (autoconvert_layers=False): wraps make_import_model(...) with PIT."""
     from plinio.methods import PIT
+    net = make_import_model(spec, wseed, plain, fold_bn)
+    x = ng.make_input(spec, xseed)
+    pit = PIT(net, input_example=x, autoconvert_layers=False, fold_bn=fold_bn, **kw)
+    return net, pit, x
+
+
+def make_import_model(spec, wseed: int, plain: set, fold_bn: bool = False):
+    """The 'user's' model for import mode: every conv/linear layer whose node id is not in
+    `plain` is placed as a PIT layer, with one masker per reference width group (frozen where the
+    reference says the width is pinned), the way a careful user would."""
     from plinio.methods.pit.nn import PITConv1d, PITConv2d, PITLinear
     from plinio.methods.pit.nn.features_masker import PITFeaturesMasker, PITFrozenFeaturesMasker
     from plinio.methods.pit.nn.timestep_masker import PITTimestepMasker, PITFrozenTimestepMasker
@@ -139,6 +147,4 @@ def build_pit_import(spec, wseed: int, plain: set, fold_bn: bool = False, xseed:
         else:
             new = PITLinear(orig, maskers[g], fold_bn=fold_bn)
         net.layers[nid] = new
-    x = ng.make_input(spec, xseed)
-    pit = PIT(net, input_example=x, autoconvert_layers=False, fold_bn=fold_bn, **kw)
-    return net, pit, x
+    return net
